@@ -41,6 +41,8 @@ int vf_choice(int n) {
 void vf_choice_end(void) { if (ch_pos != ch_n) { fprintf(stderr, "VF_SPEC skeleton vector not fully consumed\n"); _Exit(3); } }
 void vf_out(long v) { printf("OUT %ld\n", v); fflush(stdout); }
 void vf_witness(void) { }
+void vf_protect(void *obj, void *lock) { (void)obj; (void)lock; }
+void vf_unprotect_all(void) { }
 #else
 /* translated-C build: rt.h provides the interface; it only needs the choice vector */
 int VF_CHOICES[65536]; int VF_NCHOICES;
